@@ -315,13 +315,25 @@ pub fn c20r_case(inp: &ExecInput, lazy: bool, fault: &str, depth: usize, rd: &Re
             }
         }
     }
+    // the chain of the MODEL's error for the same run must be this chain (code 65); None: a scan regex outside the modelled sub-language
+    let chain_check: Option<String> = crate::streams::run_in_term(&file, &inp.dsl, &tree, &info, &inp.supplied, lazy).map(|r| {
+        let mut texts: Vec<String> = Vec::new();
+        for c in &all { let t = format!("(({}, {}), {})", c.sl.0, c.sl.1, coq_str(&c.stmt)); if !texts.contains(&t) { texts.push(t); } }
+        let msgs: Vec<String> = ctxs.iter().enumerate().filter_map(|(i, c)| if let Ctx::Other(m) = c { Some(format!("({}, {})", i, coq_str(m))) } else { None }).collect();
+        format!("c20r_chain_verdict ({}) ({}) {} {} {} {} ({})", crate::dump::tree_term(&info), r, coq_list(&texts),
+                crate::dump::error_code(crate::dump::root_cause(&err)), coq_str(&cause), coq_list(&msgs), chain_term(&ctxs, &cause))
+    });
+    tags.push(format!("model_chain_compared:{}", chain_check.is_some()));
     let (w, wp, nread) = wording_terms();
     tags.push(format!("phrases_read_off_the_implementation:{}/11", nread));
     let verdict = match &pretty {
         Err(_) => "52".to_string(),
         Ok(_) if !shows => "51".to_string(),
-        Ok(text) => format!("c20r_verdict ({}) ({}) {} {} {} {} ({}) {} {}", w, wp, coq_str(&rd.tsg_path), coq_str(&rd.tsg), coq_str(&rd.src_path), coq_str(&rd.src),
-                            chain_term(&ctxs, &cause), coq_str(text), coq_str(&plain)),
+        Ok(text) => {
+            let render = format!("c20r_verdict ({}) ({}) {} {} {} {} ({}) {} {}", w, wp, coq_str(&rd.tsg_path), coq_str(&rd.tsg), coq_str(&rd.src_path), coq_str(&rd.src),
+                            chain_term(&ctxs, &cause), coq_str(text), coq_str(&plain));
+            match &chain_check { Some(cc) => format!("(match {} with 0 => {} | c => c end)", render, cc), None => render }
+        }
     };
     let detail = format!("c20r_detail ({}) ({}) {} {} {} {} ({})", w, wp, coq_str(&rd.tsg_path), coq_str(&rd.tsg), coq_str(&rd.src_path), coq_str(&rd.src), chain_term(&ctxs, &cause));
     let n_other = ctxs.iter().filter(|c| matches!(c, Ctx::Other(_))).count();
